@@ -94,7 +94,7 @@ class Subset(Profile):
         return {"tier": tier, "jit": bool(jit), "max_sel": 3 if tier == "thorough" else 2}
 
     # ------------------------------------------------------------------
-    def gen_select(self, rng, cfg):
+    def gen_select(self, rng, cfg, prefer=()):
         how = rng.choice(["isel_face", "isel_face", "isel_node", "isel_edge", "bbox", "bbox", "bcircle", "knn", "xsec", "xsec", "faces_at_lat"])
         op = {"op": "select", "how": how}
         if how.startswith("isel"):
@@ -126,9 +126,15 @@ class Subset(Profile):
                 op["par"] = {"workers": rng.choice([1, 2, 3, 4, 7, 16]), "mode": rng.choice(["chunked", "chunked", "permuted"]), "seed": rng.randrange(1000)}
         op["api"] = rng.choice(["grid", "uxda", "uxda"]) if how != "faces_at_lat" else "grid"
         if op["api"] == "uxda":
-            op["data"] = {"on": rng.choice(["face", "face", "node", "edge"]), "lead": rng.choice([[], [], [2], [2, 3]])}
+            lead = rng.choice([[], [], [2], [2, 3]])
+            # position of the grid dimension among the others: last (usual), first or in between
+            op["data"] = {"on": rng.choice(["face", "face", "node", "edge"]), "lead": lead, "axis": rng.choice([len(lead), len(lead), 0, rng.randrange(len(lead) + 1)])}
         k = rng.choice([0, 1, 2, 3, 5])
         op["after"] = [rng.choice(RES_DERIVE) for _ in range(k)]
+        # what the source had derived before slicing is what a subset may wrongly inherit
+        for nm in prefer:
+            if nm in RES_DERIVE and rng.random() < 0.5:
+                op["after"].append(nm)
         return op
 
     def generate(self, rng, cfg):
@@ -137,7 +143,7 @@ class Subset(Profile):
         for _ in range(rng.choice([0, 0, 1, 2, 4, 6])):
             ops.append({"op": "derive", "name": rng.choice(SRC_DERIVE)})
         for s in range(rng.randint(1, cfg["max_sel"])):
-            ops.append(self.gen_select(rng, cfg))
+            ops.append(self.gen_select(rng, cfg, [o["name"] for o in ops if o["op"] == "derive"]))
             if rng.random() < 0.4:
                 ops.append({"op": "derive", "name": rng.choice(SRC_DERIVE)})
         return {"sources": {"g0": src}, "ops": ops}
@@ -491,6 +497,11 @@ class Subset(Profile):
                 grid_[ix] = base + 1e6 * (li + 1)
             arr = grid_
             dims = [f"d{k}" for k in range(len(lead))] + dims
+            ax = min(int(spec.get("axis", len(lead))), len(lead))
+            if ax != len(lead):
+                arr = np.moveaxis(arr, -1, ax)
+                dims = dims[:-1]
+                dims.insert(ax, f"n_{on}")
         return ux.UxDataArray(arr, dims=dims, uxgrid=g, name="v"), None
 
     def check_data(self, W, op, res, sub, sm, sf, sn):
@@ -502,6 +513,13 @@ class Subset(Profile):
         dim = f"n_{on}"
         if dim not in res.dims:
             return ("dims", f"result dims {res.dims} lack {dim}")
+        want_dims = [f"d{k}" for k in range(len(lead))]
+        want_dims.insert(min(int(op["data"].get("axis", len(lead))), len(lead)) if lead else 0, dim)
+        if list(map(str, res.dims)) != want_dims:
+            return ("dims", f"result dims {tuple(res.dims)}, expected {tuple(want_dims)}")
+        if vals.ndim != len(want_dims):
+            return ("shape", f"result data has {vals.ndim} axes for dims {tuple(res.dims)}")
+        vals = np.moveaxis(vals, list(map(str, res.dims)).index(dim), -1)
         want_n = {"face": len(sf), "node": len(sn)}.get(on)
         if on == "edge":
             try:
